@@ -101,12 +101,11 @@ def time_from_serialnumber_with_microseconds(serialnumber):
 
 
 def time_from_serialnumber(serialnumber):
-    at_hours = (serialnumber + MICROSECOND) * 24
-    hours = math.floor(at_hours)
-    at_mins = (at_hours - hours) * 60
-    mins = math.floor(at_mins)
-    secs = (at_mins - mins) * 60
-    return hours % 24, mins, int(round(secs - 1.1E-6, 0))
+    # the nearest second of the day, then split it: rounding the seconds
+    # after the hours and minutes were floored gave a second of 60
+    at_secs = (serialnumber - math.floor(serialnumber)) * 86400
+    secs = int(round(at_secs - 1.1E-6, 0)) % 86400
+    return secs // 3600, secs // 60 % 60, secs % 60
 
 
 def is_leap_year(year):
